@@ -24,6 +24,25 @@ def tag(task_slug, params, inputs):
     return {'t': task_slug, 'p': params, 'i': inputs}
 
 
+_LEN_DATA = {}
+
+
+def len_data_class():
+    """a user-defined in-memory result container that is falsy when empty (it defines __len__)"""
+    if 'cls' not in _LEN_DATA:
+        from taskchain import InMemoryData
+
+        class LenData(InMemoryData):
+            def __init__(self):
+                super().__init__()
+                self.items = []
+
+            def __len__(self):
+                return len(self.items)
+        _LEN_DATA['cls'] = LenData
+    return _LEN_DATA['cls']
+
+
 def norm_input(v):
     """What a consumer sees of an upstream value, as plain comparable data: directory results by the content of
     their out.json, lazily generated ones as lists, arrays and frames as nested lists with dtype and shape."""
@@ -34,6 +53,8 @@ def norm_input(v):
     if callable(v):
         return list(v())
     tn = type(v).__name__
+    if tn == 'LenData':
+        return {'len_data': list(v.items)}
     if tn == 'ndarray':
         return {'nd': v.tolist(), 'dtype': str(v.dtype), 'shape': list(v.shape)}
     if tn == 'DataFrame':
@@ -67,6 +88,8 @@ def visible(data, raw):
         return [raw]
     if data == 'str':
         return repr(raw)
+    if data == 'memlen':
+        return {'len_data': []}
     if data == 'lazy':
         return [{'k': k, 'v': raw} for k in range(3)]
     if data == 'npy':
@@ -128,7 +151,7 @@ def make_pipeline(spec, module='ref.family_gen'):
         from taskchain.data import ListOfNumpyData
         if data in ('listnpy', 'listnpy12'):
             meta['data_class'] = ListOfNumpyData
-        ret = {'npy': _np.ndarray, 'listnpy': list, 'listnpy12': list, 'pd': _pd.DataFrame, 'json': dict, 'mem': dict, 'dir': DirData, 'cont': ContinuesData, 'gen': typing.Generator, 'gen0': typing.Generator,
+        ret = {'memlen': len_data_class(), 'npy': _np.ndarray, 'listnpy': list, 'listnpy12': list, 'pd': _pd.DataFrame, 'json': dict, 'mem': dict, 'dir': DirData, 'cont': ContinuesData, 'gen': typing.Generator, 'gen0': typing.Generator,
                'lazy': GeneratedDataLazy, 'list': list, 'str': str, 'int': int}[data]
         if data == 'mem':
             meta['data_class'] = InMemoryData
@@ -289,6 +312,8 @@ def run({args}):
                 '    h.close()\n'
                 '    d.finished()\n'
                 '    return d\n')
+    elif data == 'memlen':
+        src += '    d = _ret()\n    return d\n'
     elif data == 'gen0':
         src += ('    def g():\n'
                 '        return\n'
